@@ -24,7 +24,7 @@ mutual
     | .spAssign _ l r _ => by simp [afterJs, afterJs_id l, afterJs_id r]
     | .strOp _ _ a b c => by simp [afterJs, afterJs_id a, afterJs_id b, afterJs_id c]
     | .unaryStr _ _ _ x => by simp [afterJs, afterJs_id x]
-    | .propAcc _ o _ => by simp [afterJs, afterJs_id o]
+    | .propAcc _ o _ _ => by simp [afterJs, afterJs_id o]
     | .keyAcc .. => by simp [afterJs]
     | .menuItemAcc _ m i => by simp [afterJs, afterJs_id m, afterJs_id i]
     | .menuItemsAcc _ m => by simp [afterJs, afterJs_id m]
@@ -149,7 +149,7 @@ mutual
     | .strOp k p a b c, np, ind => by
       simp [afterLingo, lingo, lingo_afterLingo a, lingo_afterLingo b, lingo_afterLingo c, afterLingo_isNone]
     | .unaryStr op p t x, np, ind => by simp [afterLingo, lingo, lingo_afterLingo x]
-    | .propAcc p o pr, np, ind => by simp [afterLingo, lingo, lingo_afterLingo o, afterLingo_cls]
+    | .propAcc p o pr ex, np, ind => by simp [afterLingo, lingo, lingo_afterLingo o, afterLingo_cls]
     | .keyAcc .., np, ind => by simp [afterLingo]
     | .menuItemAcc p m i, np, ind => by simp [afterLingo, lingo, lingo_afterLingo m, lingo_afterLingo i]
     | .menuItemsAcc p m, np, ind => by simp [afterLingo, lingo, lingo_afterLingo m]
@@ -319,7 +319,7 @@ mutual
     | .strOp k p a b c, fm, tgt, ind => by
       simp [afterLingo, js, js_afterLingo a, js_afterLingo b, js_afterLingo c, afterLingo_isNone]
     | .unaryStr op p t x, fm, tgt, ind => by simp [afterLingo, js, js_afterLingo x, afterLingo_isMenusVar]
-    | .propAcc p o pr, fm, tgt, ind => by simp [afterLingo, js, js_afterLingo o]
+    | .propAcc p o pr ex, fm, tgt, ind => by simp [afterLingo, js, js_afterLingo o]
     | .keyAcc .., fm, tgt, ind => by simp [afterLingo]
     | .menuItemAcc p m i, fm, tgt, ind => by simp [afterLingo, js, js_afterLingo m, js_afterLingo i]
     | .menuItemsAcc p m, fm, tgt, ind => by simp [afterLingo, js, js_afterLingo m]
